@@ -189,6 +189,15 @@ def compare(case, impl, model):
     if case.startswith("mg "):
         # the interleaving is schedule dependent: same multiset here, order judged by the oracle
         return None if _sorted_branch(impl) == _sorted_branch(model) else f"impl={impl!r} model={model!r} (as multisets)"
+    if case.startswith("bl "):
+        # which branch has demand when an element reaches the hub is schedule dependent (the other branch's
+        # slotDemand may still be in flight): same branch count, same union; the partition is judged by the oracle
+        bi, bm = impl.split(" ## "), model.split(" ## ")
+        ui = sorted(x for b in bi for x in (b + " ").partition(" | ")[2].split())
+        um = sorted(x for b in bm for x in (b + " ").partition(" | ")[2].split())
+        heads = [b.split(" | ")[0].strip() for b in bi]
+        ok = len(bi) == len(bm) and ui == um and all(h == "done n=1" for h in heads)
+        return None if ok else f"impl={impl!r} model={model!r} (branch union)"
     return None if impl.rstrip() == model.rstrip() else f"impl={impl!r} model={model!r}"
 
 
